@@ -7,10 +7,10 @@ Require Export MayV.Sync.SemLiveTac.
 Open Scope Z_scope.
 
 Lemma pres_L6 s o ac s' : Inv s -> LInv s o -> step s ac = Some s' -> L6 s' (lstep s o ac).
-Proof. intros Hi HL H. l6_pre HL. lsetup Hi H. Time all: l6_script Hi s a P6. Time Qed.
+Proof. intros Hi HL H. l6_pre HL. lsetup Hi H. all: l6_script Hi s a P6. Qed.
 
 Lemma pres_L7 s o ac s' : Inv s -> LInv s o -> step s ac = Some s' -> L7 s' (lstep s o ac).
-Proof. intros Hi HL H. l7_pre HL. lsetup Hi H. Time all: l7_script Hi s a P7. Time Qed.
+Proof. intros Hi HL H. l7_pre HL. lsetup Hi H. all: l7_script Hi s a P7. Qed.
 
 Lemma pres_L1 s o ac s' : Inv s -> LInv s o -> step s ac = Some s' -> L1 s' (lstep s o ac).
-Proof. intros Hi HL H. l1_pre HL. lsetup Hi H. Time all: l1_script Hi s a P1. Time Qed.
+Proof. intros Hi HL H. l1_pre HL. lsetup Hi H. all: l1_script Hi s a P1. Qed.
